@@ -134,3 +134,40 @@ Theorem c03_restart_with_pending_edit_refuted :
     observed (run_history mixF ord_id 10 ops) <> observed (run_history mixF ord_id 10 ops').
 Proof. exact restart_with_pending_edit_refuted. Qed.
 Print Assumptions c03_restart_with_pending_edit_refuted.
+
+(* the database-consistency invariant of ONE engine at build boundaries ([DbOk], Engine/Restart.v: stored iteration =
+   epoch, no flags, every row equals the memory result except possibly a larger memory builtAt and dropped single-use
+   entries, with no recorded dependency computed in the gap, builtAt <= epoch): holds initially, is preserved by
+   every build that returns (Ok or Cycle) and by restarts; under it the restarted engine simulates the running one *)
+Theorem c03_DbOk_init : DbOk init_state.
+Proof. exact DbOk_init. Qed.
+Print Assumptions c03_DbOk_init.
+
+Theorem c03_DbOk_build : forall rules env F order fuel s k,
+  DbOk s -> oinv DbOk (build rules env F order fuel s k).
+Proof. exact build_DbOk. Qed.
+Print Assumptions c03_DbOk_build.
+
+Theorem c03_DbOk_restart : forall s, DbOk s -> DbOk (restart s).
+Proof. exact DbOk_restart. Qed.
+Print Assumptions c03_DbOk_restart.
+
+Theorem c03_restart_R : forall s, DbOk s -> R s (restart s).
+Proof. exact restart_R. Qed.
+Print Assumptions c03_restart_R.
+
+Theorem c03_history_restart_R : forall F order fuel ops,
+  R (h_st (run_history F order fuel ops)) (restart (h_st (run_history F order fuel ops))).
+Proof. exact history_restart_R. Qed.
+Print Assumptions c03_history_restart_R.
+
+(* C03 over histories: for every task computation F, every dependency-order oracle, every fuel and every operation
+   list, inserting [ORestart true] at any set of positions at which no rule edit is pending ([ins false ops ops'];
+   see c03_restart_with_pending_edit_refuted for why the side condition is there) leaves the sequence of logged
+   events other than ERestart unchanged: the same executions, for the same reasons, with the same values, the same
+   build results and the same reported cycles, whether the builds run in one engine or are split across processes
+   sharing the database. *)
+Theorem c03_restart_transparent : forall F order fuel ops ops', ins false ops ops' ->
+  observed (run_history F order fuel ops') = observed (run_history F order fuel ops).
+Proof. exact restart_transparent. Qed.
+Print Assumptions c03_restart_transparent.
